@@ -80,6 +80,13 @@ func runC01(c *Ctx) {
 	// the castling rights the generator trusts must have been maintained correctly by every earlier move
 	r.Rule("R01-rights", "the castling rights the generator consults are maintained exactly: a move drops the rights whose king or rook home square it leaves or lands on (the rule of C02, re-decided here because an illegal castling move is its direct consequence)", 27)
 	c.guard("R01-rights", func() { r.WithAlias("R02-rights", "R01-rights", func() { c02Rights(c, bm) }) })
+	// the legality filter is only as good as the attack queries it asks: 'in check' must mean 'the own
+	// king's square is attacked by any opponent piece, kings included' (rules of C06, re-decided here)
+	r.Rule("R01-attack", "the attack queries behind the legality filter are the real ones: IsChecked asks IsAttacked for the own king's square, IsAttacked covers all six piece kinds, IsAttackedBy intersects the attack board from the square with the opponent's pieces of the same kind (rules of C06)", 11)
+	c.guard("R01-attack", func() {
+		e := &c06env{c: c, in: newInterp(c.P), tables: map[string][]int64{}, viewTable: map[string]string{}, win: map[string][64]window{}, kind: map[string]lineKind{}, ok: map[string]bool{}}
+		r.WithAlias("R06-queries", "R01-attack", func() { c06Queries(e) })
+	})
 }
 
 func c01Legal(c *Ctx, bm *boardModel) {
